@@ -491,6 +491,7 @@ pub fn run_repro(seed: u64, thorough: bool, warmup: bool) {
         std::mem::forget(keep);
     }
     let n = if thorough { 1500 } else { 150 };
+    let mut prng = Rng::new(seed ^ 0x7777, "repro.perturb");
     set_quiet(true);
     for case in 0..n {
         let mut digest = |dom: &str, r: Option<E2EResult>| {
@@ -517,6 +518,48 @@ pub fn run_repro(seed: u64, thorough: bool, warmup: bool) {
         if let (Some(a), Some(b)) = (&a, &b) {
             if a.dot != b.dot || a.many != b.many || a.events != b.events || a.n_states != b.n_states {
                 println!("RP {} S in-process-rebuild-differs", case);
+            }
+        }
+        // the same build (c) in a freshly spawned thread (clean thread-local state) and (d) on this
+        // thread right after an unrelated large build: a matcher may not depend on what was built
+        // before it in the process (a reused scratch container, a counter that is not reset, ...)
+        if let Some(a) = &a {
+            let (p2, h2, hs2) = (pats.clone(), heur.clone(), hosts.clone());
+            let c = std::thread::spawn(move || {
+                std::panic::set_hook(Box::new(|_| {}));
+                set_quiet(true);
+                string_case("E2E", &p2, &h2, &hs2).map(|r| (r.n_states, r.dot, r.events, r.many))
+            })
+            .join()
+            .ok()
+            .flatten();
+            let mut big: Vec<Vec<CharVar>> = vec![];
+            for _ in 0..14 {
+                let len = prng.range(2, 5);
+                big.push(
+                    (0..len)
+                        .map(|_| match prng.below(4) {
+                            0 => CharVar::Literal('a'),
+                            1 => CharVar::Literal('b'),
+                            2 => CharVar::Variable('x'),
+                            _ => CharVar::Variable('y'),
+                        })
+                        .collect(),
+                );
+            }
+            let _ = string_case("E2E", &big, &Heur::Default, &[]);
+            let d = string_case("E2E", &pats, &heur, &hosts).map(|r| (r.n_states, r.dot, r.events, r.many));
+            let base = (a.n_states, a.dot.clone(), a.events.clone(), a.many.clone());
+            for (name, x) in [("fresh-thread", &c), ("after-unrelated-build", &d)] {
+                match x {
+                    Some(x) if *x == base => {}
+                    Some(x) => println!(
+                        "RP {} S {}-build-differs states {} vs {} dot {:016x} vs {:016x} events {:016x} vs {:016x} matches {:016x} vs {:016x}",
+                        case, name, base.0, x.0, fnv(&base.1), fnv(&x.1), fnv(&base.2), fnv(&x.2),
+                        fnv(&base.3.join("|")), fnv(&x.3.join("|"))
+                    ),
+                    None => println!("RP {} S {}-build failed", case, name),
+                }
             }
         }
         digest("S", a);
